@@ -182,6 +182,8 @@ def run(tier):
             continue
         if exp["r"] == "unspec":
             continue
+        if vecs[vi].get("fam") in ("pacc", "pacct") and all(y.get("kind") == "SyntaxError" for y in rr):
+            continue        # `(e).a` is not documented syntax: refused as a whole, nothing is demanded
         C.nontrivial([vi, k])
         a, b, c = rr[0], rr[1], rr[2]
         if exp["r"] == "err":
